@@ -1023,6 +1023,8 @@ def _close(a, b, tol):
 def val_match(iv, mv):
     if iv.get("t") != mv.get("t"):
         return False
+    if "lo" in mv:  # an interval of admissible integers (free rounding decision on a huge value)
+        return mv["lo"] <= iv["v"] <= mv["hi"]
     if iv["t"] == "float":
         return _close(_fl(iv["v"]), _fl(mv["v"]), _fl(mv.get("tol", "0")))
     return iv.get("v") == mv.get("v")
